@@ -164,6 +164,17 @@ func (h *Hub) CancelPairingWithSKI(ski string) {
 
 	if existingC := h.connectionForSKI(ski); existingC != nil {
 		existingC.AbortPendingHandshake()
+
+		// only a handshake waiting in the hello phase can be aborted that way. In any other phase
+		// it would go on and complete later, so close the connection if it is not completed yet
+		state, _ := existingC.ShipHandshakeState()
+		switch state {
+		case model.SmeStateComplete, model.SmeStateError,
+			model.SmeHelloStateAbort, model.SmeHelloStateAbortDone,
+			model.SmeHelloStateRemoteAbortDone, model.SmeHelloStateRejected:
+		default:
+			existingC.CloseConnection(false, 4452, "Node rejected by application")
+		}
 	}
 
 	service := h.ServiceForSKI(ski)
